@@ -1,9 +1,13 @@
 """C08 — all lookup entry points agree with lookup() and subscriptions()."""
-from . import regcommon
+from . import regcommon, worldcommon
 
 THEOREMS = ["ZI.Registry.lookupAllRec_get", "ZI.Registry.C08_lookupAll", "ZI.Registry.get?_foldl_set", "ZI.Registry.foldl_reverse_overlay", "ZI.Registry.lookupRec_eq_first", "ZI.Upd.get?_fold_reverse", "ZI.Lookup.lookupRec_eq_first"]
 PROFILE = dict(weights=[5, 1, 2.5, 0.8, 0.6, 0.1, 0], queries=["lookup", "lookup1", "lookupAll", "names", "subs"], nregs=(1, 3), extra_queries=1,
                arity=[0, 1, 1, 1, 2, 2], objects=True, entry_rounds=2, steps=(5, 22))
+# the entry points must agree in every reachable state, including states reached by declaration / hierarchy changes while
+# some entry points are warm (cached) and others cold
+WORLD_PROFILE = dict(weights=[3, 0.8, 1.5, 0.4, 2.5, 2.5, 2, 0.5, 0.2], nregs=(1, 3), extra=2, provq=0, arity=[1, 1, 2, 2],
+                     scen_hit=0.12, scen_rbases=0.03, scen_rebuild=0.03)
 
 
 def check(tier):
@@ -13,7 +17,9 @@ def check(tier):
         "subscriptions, subscribers) is called in random order, cold and warm, with factories returning None, explicit defaults and non-string names; "
         "distinct_nontrivial = object-level adaptation calls judged against lookup's specification",
         "object_adaptations",
-        "registry-layer correspondence (entry points of LookupBase/AdapterLookupBase, C and py)")
+        "registry-layer correspondence (entry points of LookupBase/AdapterLookupBase, C and py)",
+        extra_stream=worldcommon.twin_stream("C08", WORLD_PROFILE, dict(quick=30, thorough=600),
+                                             ("lookup", "lookup1", "lookupAll", "names", "qadapter", "subs", "subscribers")))
 
 
 def replay(path):
